@@ -393,6 +393,16 @@ func makeFlag(m parse.RedirMode) int {
 	}
 }
 
+// Returns an FD other than fd that refers to port p, or -1.
+func otherFdOfPort(ports []*Port, fd int, p *Port) int {
+	for i, port := range ports {
+		if i != fd && port == p {
+			return i
+		}
+	}
+	return -1
+}
+
 type InvalidFD struct{ FD int }
 
 func (err InvalidFD) Error() string { return fmt.Sprintf("invalid fd: %d", err.FD) }
@@ -424,8 +434,16 @@ func (op *redirOp) exec(fm *Frame, fops *[]formOwnedPort) Exception {
 	dstPort := growAccess(&fm.ports, dst)
 	dstFop := growAccess(fops, dst)
 	if *dstPort != nil {
-		dstFop.close(*dstPort)
+		owned := *dstFop
 		*dstFop = formOwnedPort{File: false, Chan: false}
+		if other := otherFdOfPort(fm.ports, dst, *dstPort); other != -1 && (owned.File || owned.Chan) {
+			// An earlier n>&m made another FD share this port; that FD
+			// keeps it open and now owns it.
+			*growAccess(fops, other) = owned
+			dstFop = growAccess(fops, dst)
+		} else {
+			owned.close(*dstPort)
+		}
 	}
 
 	if op.srcIsFd {
